@@ -479,6 +479,8 @@ theorem bal_flat {L : Nat} {e : X} (hw : WFX L e) : Bal e.flat := by
   | cast L tn e _ ht _ ih => exact .paren _ _ _ _ (bal_noParen _ (TypeName.tn_noParen ht)) ih
   | szofT L tn _ ht =>
     exact .tok _ _ (by decide) (by decide) (.paren _ _ _ [] (bal_noParen _ (TypeName.tn_noParen ht)) .nil)
+  | alignT L tn _ ht =>
+    exact .tok _ _ (by decide) (by decide) (.paren _ _ _ [] (bal_noParen _ (TypeName.tn_noParen ht)) .nil)
   | post L k v e _ hk _ ih =>
     obtain ⟨h1, h2⟩ := notParen_of_mem hk (by decide) (by decide)
     exact ih.append (Bal.single _ h1 h2)
